@@ -881,6 +881,13 @@ class FState(object):
             av = self.expr(e.value)
             self.assign(e.target, av, e)
             return av
+        if isinstance(e, (ast.Yield, ast.YieldFrom)):
+            # generator function: what is yielded flows into the value the call returns (the generator's
+            # elements may alias it) - an over-approximation, like a return of unknown arity
+            av = self.expr(e.value) if e.value is not None else FRESH
+            tr.flow(self.fi, av, tr.ret_pair(self.fi))
+            self.fi.ret_arities.add(-1)
+            return FRESH
         raise Unsupported('expression %s at %s:%d' % (type(e).__name__, self.fi.module, getattr(e, 'lineno', 0)))
 
     def canon(self, mod):
